@@ -197,6 +197,8 @@ SimObs ==
     \/ obs.st = "on" /\ RandomElement(1..(6 + Z)) = 1 /\ ObsSnapshotRestore
     \/ obs.st = "on" /\ \E i \in 1..Len(kps) : ObsPropose("add", i)
     \/ obs.st = "on" /\ \E l \in {RandomElement(LeafSlots(obs.tree))} : ObsPropose("rem", l)
+    \/ obs.st = "on" /\ RandomElement(1..(2 + Z)) = 1 /\ \E kind \in {"gce", "custom"} : ObsPropose(kind, 0)
+    \/ obs.st = "on" /\ RandomElement(1..(2 + Z)) = 1 /\ \E id \in PskIds : ObsPropose("psk", id)
 
 \* successor groups: key packages of members, creation with the exact member set / one missing / an outsider
 \* added, joins through the right and the wrong API; a by-value re-init commit once the group has some history
